@@ -274,6 +274,40 @@ func Garbage(genuine []byte, class string) []byte {
 		}
 		return append([]byte{}, genuine[:n]...)
 	}
+	if strings.HasPrefix(class, "long:") {
+		// undecodable bytes that fill the emulator's 2048-octet receive buffer exactly, or more than
+		// once: an invalid NGAP-PDU CHOICE index followed by FF octets
+		n := 2048
+		fmt.Sscan(class[5:], &n)
+		out := make([]byte, n)
+		for i := range out {
+			out[i] = 0xff
+		}
+		out[0] = 0x60
+		return out
+	}
+	if strings.HasPrefix(class, "inner-len:") {
+		// an otherwise well-formed reply in which the length determinant of the NAS-PDU octet string
+		// claims more octets than its enclosing IE value holds (IE 38 | criticality | L | l, l = L-1):
+		// no X.691 decoder may accept a value that runs out of its open type
+		d := 1
+		fmt.Sscan(class[10:], &d)
+		for i := 0; i+4 < len(genuine); i++ {
+			if genuine[i] == 0x00 && genuine[i+1] == 0x26 && genuine[i+2]&0x3f == 0 && genuine[i+3] < 0x80 && genuine[i+3] > 1 && genuine[i+4] == genuine[i+3]-1 {
+				out := append([]byte{}, genuine...)
+				nl := int(out[i+4]) + d
+				if nl > 0x7f {
+					nl = 0x7f
+				}
+				if nl <= int(genuine[i+4]) {
+					break
+				}
+				out[i+4] = byte(nl)
+				return out
+			}
+		}
+		class = "prefix" // no short NAS-PDU in this message: fall back to a strict prefix
+	}
 	switch class {
 	case "choice":
 		// NGAP-PDU CHOICE index 3 does not exist (three root alternatives)
